@@ -38,8 +38,8 @@ SHARD_TIMEOUT = {"quick": 500, "thorough": 3000}
 
 
 def plan(tier, seed):
-    n, hs = (6, 12) if tier == "quick" else (24, 40)
-    return [{"backend": b, "case_seed": seed * 7919 + i, "histories": hs, "bursts": 12 if tier == "quick" else 40} for b in ("sql", "lmdb") for i in range(n)]
+    n, hs = (6, 12) if tier == "quick" else (48, 100)
+    return [{"backend": b, "case_seed": seed * 7919 + i, "histories": hs, "bursts": 12 if tier == "quick" else 100} for b in ("sql", "lmdb") for i in range(n)]
 
 
 def gen_history(r):
